@@ -39,6 +39,9 @@ type Check struct {
 	// register probe lints into the global registry and must not disturb
 	// the other workers' view of it).
 	Solo func(c *Ctx)
+	// Aux are named auxiliary modes run as their own process (`-aux name`),
+	// e.g. the strace'd I/O phase of C05; they write a Report to -out.
+	Aux map[string]func(c *Ctx)
 	// Driver, when set, replaces the worker fan-out entirely (C10, C15 ...).
 	Driver func(c *Ctx)
 	// Finish runs in the driver on the merged report: observation gates
@@ -130,6 +133,7 @@ func Main() {
 	work := fs.String("work", "", "scratch dir")
 	replay := fs.String("replay", "", "replay file")
 	solo := fs.Bool("solo", false, "solo worker mode")
+	aux := fs.String("aux", "", "auxiliary mode")
 	if len(os.Args) < 3 {
 		fmt.Fprintln(os.Stderr, "usage: vcheck <Cxx> <quick|thorough> [flags]")
 		os.Exit(2)
@@ -171,6 +175,21 @@ func Main() {
 			os.Exit(1)
 		}
 		fmt.Println("replay: no violation reproduced")
+		return
+	}
+	if *aux != "" {
+		f := ch.Aux[*aux]
+		if f == nil {
+			fmt.Fprintln(os.Stderr, "unknown aux mode")
+			os.Exit(2)
+		}
+		f(c)
+		if *out != "" {
+			if err := c.R.WriteFile(*out); err != nil {
+				fmt.Fprintln(os.Stderr, err)
+				os.Exit(2)
+			}
+		}
 		return
 	}
 	if *worker {
